@@ -1374,7 +1374,8 @@ impl CoreRuntime {
                                     }
                                 })
                         });
-                    self.timer.in_interrupt = false;
+                    // Still inside an outer handler when this RETI returned from a nested interrupt.
+                    self.timer.in_interrupt = !self.timer.delivered_masks.is_empty();
                     if irq_src.as_deref().is_some_and(|s| s == "KEY") {
                         self.timer.key_irq_latched = false;
                     }
